@@ -6,7 +6,7 @@ BASE = "cd /repo && cargo nextest run --workspace --no-fail-fast --offline || ca
 
 CHECKS = {
  "C01": dict(
-   text="Differential test of run_checks verdicts against an independent reference interpreter of the documented core language: bounded-exhaustive over all single-clause programs of a value/literal/query-shape universe in five syntactic forms (plain, prefix-not, query block, filter, when), plus proptest-generated composed programs (filters, blocks, when, rule references in both directions, lets at three scopes, same-named rules).",
+   text="Differential test of run_checks verdicts against an independent reference interpreter of the documented core language: bounded-exhaustive over all single-clause programs of a value/literal/query-shape universe in five syntactic forms (plain, prefix-not, query block, filter, when), plus proptest-generated composed programs (filters, blocks, when, rule references in both directions, lets at three scopes, same-named rules). The implicit `default` rule (clauses outside any rule) and filters nested inside filters are part of the generated programs and of the model.",
    note="Trusts the reference model (harness/src/model.rs); its undocumented corners were calibrated against the pinned tree (DESIGN 4, Appendix A). Bounded program size/depth and document universe.",
    tech="differential PBT against a reference model (proptest choice streams + bounded-exhaustive enumeration)", ref="DESIGN.md sections 4, 5/C01"),
  "C02": dict(
@@ -18,15 +18,15 @@ CHECKS = {
    note="Comparability for the flip law is decided by value types in the harness; no reference model is involved beyond locating the selected value.",
    tech="metamorphic testing (pairs of programs, bounded-exhaustive class product + proptest)", ref="DESIGN.md 5/C03"),
  "C04": dict(
-   text="Permutation / duplication invariance: lines of any CNF, alternatives of any line, rules of the file, duplicated lines/alternatives/rules; all permutations up to 4 items, sampled beyond; per-rule statuses by name and file status must not change.",
+   text="Permutation / duplication invariance: lines of any CNF, alternatives of any line, rules of the file, duplicated lines/alternatives/rules; all permutations up to 4 items, sampled beyond; per-rule statuses by name and file status must not change. A quarter of the wide programs capture map keys in a variable (`map[ name | filter ]`), count them in a file-level let and use both in a rule that refers to the capturing rule.",
    note="Cases where some ordering raises an evaluation error are discarded (statement's precondition); unique rule names.",
    tech="metamorphic testing over proptest-generated programs (history = population order of memoised variables / rule statuses)", ref="DESIGN.md 5/C04"),
  "C07": dict(
-   text="One (rules, data) pair rendered through ~27 configurations (console table with every -S selection and -v, plain json/yaml, -p record, --structured json/yaml/junit/sarif, files / stdin / payload, run_checks verbose and non-verbose); PASS/FAIL/SKIP sets, file status and exit code extracted from every output must equal the library record's; YAML==JSON as data; JUnit well-formed with consistent counters; SARIF result count == failing leaf checks; reports beyond 8 KiB / 64 KiB.",
-   note="Only evaluations without error are compared (error exits are C06's subject). Parsers for the outputs live in the harness (serde_json, serde_yaml, quick-xml).",
+   text="One (rules, data) pair rendered through ~27 configurations (console table with every -S selection and -v, plain json/yaml, -p record, --structured json/yaml/junit/sarif, files / stdin / payload, run_checks verbose and non-verbose); PASS/FAIL/SKIP sets, file status and exit code extracted from every output must equal the library record's; YAML==JSON as data; JUnit well-formed with consistent counters; SARIF result count == failing leaf checks; reports beyond 8 KiB / 64 KiB. Stages 'multi-file' (2-3 rules files), 'multi-data' (2-3 data files, failing file often not last: exit code, per-file status, JUnit counters) and 'duplicate-names' (a rule name defined twice).",
+   note="Only evaluations without error are compared (error exits are C06's subject). Parsers for the outputs live in the harness (serde_json, serde_yaml, quick-xml). Known finding F42 (duplicated rule name, console vs JSON) excluded by signature.",
    tech="differential testing across output formats / entry points on proptest-generated inputs", ref="DESIGN.md 5/C07"),
  "C09": dict(
-   text="Structured report vs verbose record of the same evaluation: compliant / not_applicable / not_compliant are exactly the PASS / SKIP / FAIL rules, disjoint, each once; file status; exit code; every listed check's custom message belongs to a check that failed under that rule; multi-rules-file report == union/concatenation of single-file reports; CLI (payload) and library entry points.",
+   text="Structured report vs verbose record of the same evaluation: compliant / not_applicable / not_compliant are exactly the PASS / SKIP / FAIL rules, disjoint, each once; file status; exit code; every listed check's custom message belongs to a check that failed under that rule; multi-rules-file report == union/concatenation of single-file reports; CLI (payload) and library entry points. A listed check must lie on a path of FAIL nodes below its rule (a check under a clause / block / disjunction that did not FAIL is not a cause).",
    note="Ground-truth statuses come from the verbose record (C01/C02 judge them). Globally distinct rule names and unique messages by construction.",
    tech="invariant checking of generated reports against the evaluation record (proptest)", ref="DESIGN.md 5/C09"),
  "C13": dict(
@@ -34,47 +34,47 @@ CHECKS = {
    note="List/single-value coercion exempt (documented); two recorded known findings (F24, F25) are excluded by exact signature.",
    tech="bounded-exhaustive enumeration + PBT against native comparison / an independent regex matcher", ref="DESIGN.md 5/C13"),
  "C15": dict(
-   text="P vs P' where one occurrence is abstracted: right-hand literal -> let (file/rule/block/when scope, optional shadowing), left-hand query prefix -> let + %v.rest, block query -> let, unused let (incl. one that would raise an error), clause -> parameterised rule with query or literal argument; rule order of P' shuffled to vary which reference forces the lazy evaluation.",
+   text="P vs P' where one occurrence is abstracted: right-hand literal -> let (file/rule/block/when scope, optional shadowing), left-hand query prefix -> let + %v.rest, block query -> let, unused let (incl. one that would raise an error), clause -> parameterised rule with query or literal argument; rule order of P' shuffled to vary which reference forces the lazy evaluation. Also a two-parameter rule whose parameter names are the caller's variable names, passed crossed over.",
    note="Exempt as documented: emptiness test on a bare variable; `%v[*]` (no-op on the result set) and filters directly after a variable are not treated as textual substitutions.",
    tech="metamorphic testing (program transformation) over proptest-generated programs", ref="DESIGN.md 5/C15"),
  "C05": dict(
-   text="Every case runs 5 times as a fresh process of the real binary in 16 modes (validate console/json/yaml/structured json,yaml,junit,sarif/-v/-p; test console/json/yaml/junit; parse-tree json/yaml; rulegen) under varied irrelevant environment (HOME, TZ, LANG, cwd): equal exit status, byte-identical structured output (JUnit time masked), console output identical as a multiset of lines; plus 5 interleaved in-process evaluations. Stage 'batch': one validate --structured invocation over 2-3 documents must report per document exactly what an invocation of its own reports (nothing carried over from what was evaluated earlier in the process).",
+   text="Every case runs 5 times as a fresh process of the real binary in 16 modes (validate console/json/yaml/structured json,yaml,junit,sarif/-v/-p; test console/json/yaml/junit; parse-tree json/yaml; rulegen) under varied irrelevant environment (HOME, TZ, LANG, cwd): equal exit status, byte-identical structured output (JUnit time masked), console output identical as a multiset of lines; plus 5 interleaved in-process evaluations. Stage 'batch': one validate --structured invocation over 2-3 documents must report per document exactly what an invocation of its own reports (nothing carried over from what was evaluated earlier in the process). Stage 'environment': programs whose result could depend on time zone or locale (parse_epoch with / without offset, case mapping, locale-formatted numbers, string order) under six TZ / LANG / LC_* settings. Data files are written in single-line and multi-line layouts; documents carry multi-word keys in several naming conventions.",
    note="Five runs per mode; an order leak over n>=3 hashed entries escapes a case with probability <= (1/6)^4. NO_COLOR held fixed.",
    tech="repeated-execution differential testing across fresh processes (hash seeds) on proptest-generated inputs", ref="DESIGN.md 5/C05"),
  "C06": dict(
-   text="Exit-code oracle computed from facts established through other code paths (parse-tree decides 'parses', run_checks decides each pair's status) for 1-3 rules files x 1-3 data files of 6x5 kinds in 10 invocation modes, in process and through the real binary (main's Err -> 255); test command: rules/spec/expectation kinds x layouts x formats.",
-   note="Template-based file kinds (the fold over files is what is searched, not the clause language).",
+   text="Exit-code oracle computed from facts established through other code paths (parse-tree decides 'parses', run_checks decides each pair's status) for 1-3 rules files x 1-3 data files of 6x5 kinds in 10 invocation modes, in process and through the real binary (main's Err -> 255); test command: rules/spec/expectation kinds x layouts x formats. `test --dir` runs hold 1-4 guard files (stems sorting before / after / extending the primary stem, in sub-directories; good, mismatching, broken, without tests); rules files without any rule.",
+   note="Template-based file kinds (the fold over files is what is searched, not the clause language). Known finding F41 (rules file without rules) excluded by signature.",
    tech="PBT with a differential oracle (exit code vs independently established per-pair facts)", ref="DESIGN.md 5/C06"),
  "C08": dict(
-   text="Any panic / abort / signal / hang is a violation: 45 ill-typed parser-accepted program shapes x 29 awkward documents (bounded-exhaustive product), token/byte mutants of generated programs and documents, token soup for every file role, through run_checks, parse-tree, validate (payload in 6 modes, files, stdin, -i) and test; recursion, 48-64-deep nesting and rulegen edge cases through the real binary; rejected rules files must give exit 5 with line/column and no evaluated rule.",
+   text="Any panic / abort / signal / hang is a violation: 53 ill-typed parser-accepted program shapes x 29 awkward documents (bounded-exhaustive product), token/byte mutants of generated programs and documents, token soup for every file role, through run_checks, parse-tree, validate (payload in 6 modes, files, stdin, -i) and test; recursion, 48-64-deep nesting and rulegen edge cases through the real binary; rejected rules files must give exit 5 with line/column and no evaluated rule. Variable and rule cycles are generated (6 scopes x 7 definition kinds x length 1-3 x 6 uses; 6 link kinds x 3 lengths) and run through the real binary.",
    note="In-process calls use catch_unwind (panic site = signature); stack-exhausting inputs go through the binary. A watchdog hit on anything but the designated probe of known finding F33 is reported as inconclusive (exit 2). libFuzzer targets under fuzz/ extend this in the thorough tier.",
    tech="robustness fuzzing: grammar-aware mutation + enumerated hazard product (proptest) with crash/grammar oracles", ref="DESIGN.md 5/C08, 6"),
  "C10": dict(
-   text="Every {path,value} pair of the structured report resolves in the harness's copy of the document to exactly that value; every unresolved check's reached point is an instance of a prefix of its clause's query with the next segment missing; every Path=..[L,C] of a scalar equals the position recorded by the harness's own JSON/YAML writers (random layout). Layouts include leading blank lines / indentation, comments, `---`, varying indentation units.",
+   text="Every {path,value} pair of the structured report resolves in the harness's copy of the document to exactly that value; every unresolved check's reached point is an instance of a prefix of its clause's query with the next segment missing; every Path=..[L,C] of a scalar equals the position recorded by the harness's own JSON/YAML writers (random layout). Layouts include leading blank lines / indentation, comments, `---`, varying indentation units. `from` of a clause whose query starts at a key must point into the document.",
    note="`to` is judged only when the clause compares with a data query; only scalar positions are judged; remaining_query text is not judged.",
    tech="invariant checking of generated reports against the generated document and writer-recorded positions (proptest)", ref="DESIGN.md 5/C10"),
  "C11": dict(
-   text="String-heavy documents written 4 ways x loaded by validate (payload, file), run_checks and test: the dumped loaded document equals the generated one exactly and a generated probe battery passes everywhere; exhaustive tag table (21 tags x 6 payload forms) short form == long form; malformed / non-string-key texts rejected by every loader.",
-   note="Strings are written plain only when YAML 1.1 and 1.2 agree they are strings; aliases and comment-only text are not asserted (not in the statement).",
+   text="String-heavy documents written 4 ways x loaded by validate (payload, file), run_checks and test: the dumped loaded document equals the generated one exactly and a generated probe battery passes everywhere; exhaustive tag table (21 tags x 6 payload forms) short form == long form; malformed / non-string-key texts rejected by every loader. Writers cover literal / folded block scalars, empty values for null, ASCII-only JSON escapes, leading blank lines and whole-document indentation; negatives include repeated map keys.",
+   note="Strings are written plain only when YAML 1.1 and 1.2 agree they are strings; aliases and comment-only text are not asserted (not in the statement). Known findings F48 (JSON repeated names via serde_json) and F49 (surrogate-pair escapes) excluded by signature.",
    tech="round-trip / differential PBT across writers and loaders + exhaustive tag table", ref="DESIGN.md 5/C11"),
  "C12": dict(
-   text="Batch (1-3 rules files sharing names x 1-4 documents; explicit lists in two orders, directories -a/-m/default, payload lists) vs every pair validated alone: per-data-file report == union of singleton reports, console output == multiset union, exit 19 iff some singleton FAILs; test cases in one spec file vs one file per case.",
+   text="Batch (1-3 rules files sharing names x 1-4 documents; explicit lists in two orders, directories -a/-m/default, payload lists) vs every pair validated alone: per-data-file report == union of singleton reports, console output == multiset union, exit 19 iff some singleton FAILs; test cases in one spec file vs one file per case. Rules / data files with distinct base names in one directory or the same base name in a directory each; multi-word keys in several naming conventions; key captures.",
    note="Batches containing an evaluation error are discarded.",
    tech="metamorphic testing (batch vs singletons) on proptest-generated inputs", ref="DESIGN.md 5/C12"),
  "C14": dict(
-   text="Canonical vs variant printing of the same generated AST: per-token synonym choices (17 class/alternative pairs, also enumerated one class at a time) and layout/comments; parse-tree JSON (locations removed, leading This dropped) equal and verdicts equal on two documents; type block vs explicit filter block; bare clauses vs rule default.",
-   note="Only spellings listed by the grammar comment / docs count as synonyms.",
+   text="Canonical vs variant printing of the same generated AST: per-token synonym choices (17 class/alternative pairs, also enumerated one class at a time) and layout/comments; parse-tree JSON (locations removed, leading This dropped) equal and verdicts equal on two documents; type block vs explicit filter block; bare clauses vs rule default. Type-block rewrites include block-level lets, a twin resource with other values, and documents without resources.",
+   note="Only spellings listed by the grammar comment / docs count as synonyms. Known finding F45 (type block on a document without resources) excluded by signature.",
    tech="metamorphic testing with a choice-stream variant printer (proptest + enumeration of the synonym table)", ref="DESIGN.md 5/C14"),
  "C16": dict(
    text="`test` (console, json, yaml, junit; -r/-t and --dir; JSON and YAML spec files) vs the per-rule statuses of run_checks on each input with the met-rule of the statement: met set, unmet entries with expected and evaluated lists, rules without expectation, JUnit marks/counters, exit 0/7.",
    note="Inputs raising evaluation errors are discarded (C06 judges error exits).",
    tech="differential PBT (test command vs validate path)", ref="DESIGN.md 5/C16"),
  "C17": dict(
-   text="Keys of a generated map distributed over data + 1-3 parameter files; every -i order in 4 modes vs the pre-merged document (exit code, verdict sets); deliberately duplicated keys must give an error naming the key and no verdict.",
+   text="Keys of a generated map distributed over data + 1-3 parameter files; every -i order in 4 modes vs the pre-merged document (exit code, verdict sets); deliberately duplicated keys must give an error naming the key and no verdict. Parameter files as JSON or block YAML, given one by one or as a directory; rules that walk the merged top-level map (`this.*`, keys filters, count); a second definition with the same or another value.",
    note="Verdicts compared as status sets.",
    tech="metamorphic testing (split vs merged) on proptest-generated inputs", ref="DESIGN.md 5/C17"),
  "C18": dict(
-   text="16 functions / composites (incl. parse_char, parse_epoch vs a days-from-civil implementation) on generated argument lists (strings of many shapes, numbers, bools, null, lists, unresolved members) in 4 argument forms vs independent implementations; result set read from the report; converters must raise errors on unparsable input; later use of a bound result; the documentation's own examples.",
+   text="18 functions / composites (incl. parse_char, parse_epoch vs a days-from-civil implementation, parse_int / parse_float of chars and of out-of-range floats) on generated argument lists (strings of many shapes, numbers, bools, null, lists, unresolved members) in 4 argument forms vs independent implementations; result set read from the report; converters must raise errors on unparsable input; later use of a bound result; the documentation's own examples.",
    note="Outcomes the documentation does not determine are generated but not asserted; Rust std string functions are trusted base.",
    tech="PBT against an independent reference implementation", ref="DESIGN.md 5/C18"),
  "C19": dict(
